@@ -7,6 +7,8 @@ Reads include/nstd/Variant.hpp of the CURRENT sources (`NSTD_REPO`, default /rep
     toMap() toList() toArray() toString()   (mutable)                  toMap() toList() toArray() const
     operator=(bool double int uint int64 uint64)                       operator=(const HashMap& List& Array& String&)
     getType() isNull() toBool() toInt() toUInt() toInt64() toUInt64() toDouble() toString() const       operator==(const Variant&)
+    ~Variant()  Variant()  Variant(bool double int uint int64 uint64)  Variant(const HashMap& List& Array& String&)
+    operator!=(const Variant&)  swap(Variant&)  NullData() + the definition of Variant::nullData in src/Variant.cpp
 
 (tokenizer + recursive-descent parser of the C++ subset these bodies are written in) and writes them, statement by statement,
 as Lean functions into lean/Nstd/Generated/VariantRep.lean (over the vocabulary of lean/Nstd/Variant/Raw.lean: the object is
@@ -29,6 +31,10 @@ Rules of the translation (listed in the MANIFEST note):
     tag T must be the member that tag stores (anything else is a reinterpretation: refused); casts between integer types are
     value-preserving when the source range is inside the target range and reductions mod 2^32/2^64 otherwise; a double is
     opaque (`DblSem`); `String::to*`/`String::from*` are the area's definitions of them.
+  * a constructor's member initialiser `: data(e)` is its first statement `data = e;`; `swap` is translated as calls of the translated
+    copy constructor / operator= / destructor (locals destroyed at the end, last constructed first) on the objects `*this`, `other`
+    and the locals, once with `other` aliasing `*this` (`same`) and once distinct; src/Variant.cpp must consist of the definition of
+    `Variant::nullData` only.
   * `operator==`: per tag of `*this`; a test of `other.data->type` becomes a match on `other`; the containers' `operator==` on two
     payloads of the same type (`ceq`) and the recursive call `other == *this` (`flip`) are parameters; `#ifdef ASSERT` lines dropped.
 """
